@@ -77,6 +77,19 @@ static int no_children (const void *v) {
 #define WAKEUP_NO_CHILDREN(n_) nsync_cv_broadcast (&(n_)->no_children_cv)
 */
 
+/* Return whether no thread is disconnecting *n.  Assumes n->note_mu held. */
+static int not_disconnecting (const void *v) {
+	return (((nsync_note)v)->disconnecting == 0);
+}
+
+/* Wait until no other thread is in the process of disconnecting *n from its
+   parent.  n->note_mu is held; it may be released and reacquired.  A thread
+   that recorded n->parent and then gave up n->note_mu to acquire the parent's
+   lock would otherwise find that another thread had meanwhile disconnected *n,
+   after which the parent's owner is free to deallocate the parent.  */
+#define WAIT_UNTIL_NOT_DISCONNECTING(n_) \
+	nsync_mu_wait (&(n_)->note_mu, &not_disconnecting, (n_), NULL)
+
 /* Notify *n and all its descendants that are not already disconnnecting.
    n->note_mu is held.  May release and reacquire n->note_mu.
    parent->note_mu is held if parent != NULL. */
@@ -98,7 +111,11 @@ static void note_notify_child (nsync_note n, nsync_note parent) {
 			next = nsync_dll_next_ (n->children, p);
 			nsync_mu_lock (&child->note_mu);
 			if (child->disconnecting == 0) {
+				/* note_notify_child() may release child->note_mu;
+				   tell other threads not to disconnect *child. */
+				child->disconnecting++;
 				note_notify_child (child, n);
+				child->disconnecting--;
 			}
 			nsync_mu_unlock (&child->note_mu);
 		}
@@ -117,6 +134,7 @@ static void note_notify_child (nsync_note n, nsync_note parent) {
 static void notify (nsync_note n) {
 	nsync_time t;
 	nsync_mu_lock (&n->note_mu);
+	WAIT_UNTIL_NOT_DISCONNECTING (n);
 	t = NOTIFIED_TIME (n);
 	if (nsync_time_cmp (t, nsync_time_zero) > 0) {
 		nsync_note parent;
@@ -197,6 +215,7 @@ void nsync_note_free (nsync_note n) {
 	nsync_dll_element_ *p;
 	nsync_dll_element_ *next;
 	nsync_mu_lock (&n->note_mu);
+	WAIT_UNTIL_NOT_DISCONNECTING (n);
 	n->disconnecting++;
 	ASSERT (nsync_dll_is_empty_ (n->waiters));
 	parent = n->parent;
